@@ -45,6 +45,7 @@ impl K {
 // TypeDef = (kind members, may fail). Contracts of the one-line TypeDef/Kind methods in
 // src/compiler/type_def.rs and src/value/kind/*.rs; the scalar Kind algebra underneath
 // (union, is_superset) is decided on the real code by the C19 Kani units.
+pub open spec fn no_members(m: Set<int>) -> bool { forall|x: int| !m.contains(x) }
 pub struct TypeDef { pub m: Ghost<Set<int>>, pub fall: Ghost<bool>, pub rest: Opaque }
 impl Clone for TypeDef {
     #[verifier::external_body]
@@ -59,9 +60,18 @@ impl TypeDef {
     #[verifier::external_body] pub fn is_integer(&self) -> (r: bool) ensures r == (self.m@ == set![INTEGER]) { unimplemented!() }
     #[verifier::external_body] pub fn is_float(&self) -> (r: bool) ensures r == (self.m@ == set![FLOAT]) { unimplemented!() }
     #[verifier::external_body] pub fn is_timestamp(&self) -> (r: bool) ensures r == (self.m@ == set![TIMESTAMP]) { unimplemented!() }
+    #[verifier::external_body] pub fn is_boolean(&self) -> (r: bool) ensures r == (self.m@ == set![BOOLEAN]) { unimplemented!() }
+    #[verifier::external_body] pub fn is_regex(&self) -> (r: bool) ensures r == (self.m@ == set![REGEX]) { unimplemented!() }
+    #[verifier::external_body] pub fn is_undefined(&self) -> (r: bool) ensures r == (self.m@ == set![UNDEFINED]) { unimplemented!() }
+    #[verifier::external_body] pub fn is_array(&self) -> (r: bool) ensures r == (self.m@ == set![ARRAY]) { unimplemented!() }
+    #[verifier::external_body] pub fn is_object(&self) -> (r: bool) ensures r == (self.m@ == set![OBJECT]) { unimplemented!() }
     // contains_* treat the empty ("never") kind as containing everything
-    #[verifier::external_body] pub fn contains_null(&self) -> (r: bool) ensures self.m@.contains(NULL) ==> r { unimplemented!() }
-    #[verifier::external_body] pub fn contains_boolean(&self) -> (r: bool) ensures self.m@.contains(BOOLEAN) ==> r { unimplemented!() }
+    #[verifier::external_body] pub fn contains_null(&self) -> (r: bool) ensures r == (self.m@.contains(NULL) || no_members(self.m@)) { unimplemented!() }
+    #[verifier::external_body] pub fn contains_boolean(&self) -> (r: bool) ensures r == (self.m@.contains(BOOLEAN) || no_members(self.m@)) { unimplemented!() }
+    #[verifier::external_body] pub fn contains_bytes(&self) -> (r: bool) ensures r == (self.m@.contains(BYTES) || no_members(self.m@)) { unimplemented!() }
+    #[verifier::external_body] pub fn contains_integer(&self) -> (r: bool) ensures r == (self.m@.contains(INTEGER) || no_members(self.m@)) { unimplemented!() }
+    #[verifier::external_body] pub fn contains_float(&self) -> (r: bool) ensures r == (self.m@.contains(FLOAT) || no_members(self.m@)) { unimplemented!() }
+    #[verifier::external_body] pub fn contains_timestamp(&self) -> (r: bool) ensures r == (self.m@.contains(TIMESTAMP) || no_members(self.m@)) { unimplemented!() }
     #[verifier::external_body] pub fn remove_null(&mut self) ensures final(self).m@ == old(self).m@.remove(NULL), final(self).fall == old(self).fall { unimplemented!() }
     #[verifier::external_body] pub fn union(self, other: TypeDef) -> (r: TypeDef) ensures r.m@ == self.m@.union(other.m@), r.fall@ == (self.fall@ || other.fall@) { unimplemented!() }
     #[verifier::external_body] pub fn merge_overwrite(self, other: TypeDef) -> (r: TypeDef) ensures self.m@.union(other.m@).subset_of(r.m@), r.fall@ == (self.fall@ || other.fall@) { unimplemented!() }
